@@ -63,9 +63,10 @@ enum IKind
   I_HIST_DOUBLE
 };
 const int kMaxDigits = 24;  // 4^24 = 2^48: exact in a double
-const int kNKeys      = 4;
-const char *kKeys[kNKeys] = {"k0", "k1", "k2", "k3"};
-const int kAllKeys    = 15;
+const int kNKeys      = 5;
+// the last key is a prefix of all the others (allow-lists must compare whole keys)
+const char *kKeys[kNKeys] = {"k0", "k1", "k2", "k3", "k"};
+const int kAllKeys    = 31;
 const std::string kOverflowKey = "otel.metrics.overflow";
 
 bool is_hist(int k)
@@ -87,13 +88,18 @@ AttrMap attrs_of(int64_t id, int mask)
     int v = (int)((id >> (2 * k)) & 3);
     if (!v || !((mask >> k) & 1))
       continue;
-    // k0: int64, k1: string, k2: bool, k3: double / int64 array / string array by value
+    // k0: int64; k1: strings of equal length; k2: bool; k3: double and two int64 arrays that
+    // share their first element; k: two string arrays that share their first element, and the
+    // empty string
     m[kKeys[k]] = k == 0   ? "i64:" + std::to_string(v)
                   : k == 1 ? "s:v" + std::to_string(v)
                   : k == 2 ? std::string("b:") + (v > 1 ? "1" : "0")
-                  : v == 1 ? std::string("d:1.500000")
-                  : v == 2 ? std::string("vi64:[2,3,]")
-                           : std::string("vs:[a,b3,]");
+                  : k == 3 ? (v == 1   ? std::string("d:1.500000")
+                              : v == 2 ? std::string("vi64:[2,3,]")
+                                       : std::string("vi64:[2,4,]"))
+                           : (v == 1   ? std::string("vs:[a,b3,]")
+                              : v == 2 ? std::string("vs:[a,b4,]")
+                                       : std::string("s:"));
   }
   return m;
 }
@@ -438,15 +444,17 @@ struct CallAttrs final : common::KeyValueIterable
       }
       if (k == 2)
         return common::AttributeValue((bool)(v > 1));
-      if (v == 1)
-        return common::AttributeValue(1.5);
-      if (v == 2)
+      if (k == 3)
       {
-        static const int64_t arr[2] = {2, 3};
-        return common::AttributeValue(nostd::span<const int64_t>(arr, 2));
+        if (v == 1)
+          return common::AttributeValue(1.5);
+        static const int64_t arr2[2] = {2, 3}, arr3[2] = {2, 4};
+        return common::AttributeValue(nostd::span<const int64_t>(v == 2 ? arr2 : arr3, 2));
       }
-      static const nostd::string_view sarr[2] = {"a", "b3"};
-      return common::AttributeValue(nostd::span<const nostd::string_view>(sarr, 2));
+      if (v == 3)
+        return common::AttributeValue(nostd::string_view(""));
+      static const nostd::string_view s1[2] = {"a", "b3"}, s2[2] = {"a", "b4"};
+      return common::AttributeValue(nostd::span<const nostd::string_view>(v == 1 ? s1 : s2, 2));
     };
     // a duplicate of the first key with another value comes first: the later one must win
     if (!keys.empty() && ((order_seed >> 20) & 1))
@@ -1275,7 +1283,7 @@ void generate(const std::string &prop, Rng &wl, Rng &fl, Case &c)
     ninstr  = 1;
     c.set("ninstr", 1);
     c.set("direct_limit", wl.range(2, 6));
-    c.set("filter0", wl.chance(0.5) ? kAllKeys : (int64_t)wl.range(0, 14));
+    c.set("filter0", wl.chance(0.5) ? kAllKeys : (int64_t)wl.range(0, 30));
     stratum = "direct_limit";
   }
   for (int i = 0; i < ninstr; ++i)
@@ -1302,7 +1310,7 @@ void generate(const std::string &prop, Rng &wl, Rng &fl, Case &c)
       c.set(fmt("view%d_instr", v).c_str(), (int64_t)wl.below(ninstr));
       c.set(fmt("view%d_named", v).c_str(), 1);
       c.set(fmt("view%d_filter", v).c_str(),
-            prop == "C06" ? kAllKeys : (wl.chance(0.3) ? kAllKeys : (int64_t)wl.range(0, 14)));
+            prop == "C06" ? kAllKeys : (wl.chance(0.3) ? kAllKeys : (int64_t)wl.range(0, 30)));
       c.set(fmt("view%d_minmax", v).c_str(), wl.chance(0.8));
     }
     if (nviews)
@@ -1328,7 +1336,7 @@ void generate(const std::string &prop, Rng &wl, Rng &fl, Case &c)
   // recorder tasks
   int nrec = (int)wl.range(1, 2);
   std::vector<int> next_digit(ninstr, 0);
-  int nsets = prop == "C08" ? 256 : 8;
+  int nsets = prop == "C08" ? 1024 : 8;
   for (int t = 0; t < nrec; ++t)
   {
     TaskProg p;
@@ -1350,7 +1358,7 @@ void generate(const std::string &prop, Rng &wl, Rng &fl, Case &c)
       if (next_digit[i] >= kMaxDigits)
         continue;
       int64_t aid = prop == "C08" ? (int64_t)wl.below(nsets)
-                                  : (int64_t)(wl.chance(0.2) ? 0 : wl.below(256));
+                                  : (int64_t)(wl.chance(0.2) ? 0 : wl.below(1024));
       if (prop == "C06" && wl.chance(0.5))
         aid &= 0x0f;  // fewer distinct sets: more merging into one series
       p.ops.push_back({OP_ADD, i, aid, next_digit[i]++, (int64_t)(wl.next() >> 2)});
@@ -1431,7 +1439,7 @@ const EngineDesc g_engine = {
     "one run = MeterProvider with 1-3 pull readers of mixed temporality (each collected from its "
     "own task, plus one final quiescent collection), 0-2 named views (attribute allow-lists, "
     "histogram boundaries, min/max), 1-3 instruments (counter / up-down counter / histogram, "
-    "long / double), 1-2 recorder tasks x 2-20 operations with attribute sets over 4 keys x 3 "
+    "long / double), 1-2 recorder tasks x 2-20 operations with attribute sets over 5 keys (one a prefix of the others) x 3 "
     "values (int64, string, bool, double, int64 array, string array) passed in a per-call key order with overwritten duplicates; counter measurement k "
     "adds +-4^k so each reported sum decodes into the measurements it contains; C08 also drives "
     "SyncMetricStorage directly with limits 2-6; a minority stratum creates a second handle for "
